@@ -1,6 +1,7 @@
 package yubiagent
 
 //vsym:pkg github.com/theparanoids/ysshra/agent/yubiagent
+//vsym:include yubiagent/ctor.go || yubiagent/ctor_bb.go
 //vsym:entry H13_listslots
 //vsym:entry H13_remote
 //vsym:model os/exec.Command m13Command
@@ -65,11 +66,12 @@ func H13_listslots() {
 		n = vChoose(maxOut+1, "output-len")
 	}
 	m13Out = vNondetBytes("out", n)
-	s := &server{pivtoolpath: "/model/yubico-piv-tool", remote: false}
+	tool := "/model/yubico-piv-tool"
 	if vIsNative() {
-		s.pivtoolpath = h13Tool()
-		defer os.RemoveAll(filepath.Dir(s.pivtoolpath))
+		tool = h13Tool()
+		defer os.RemoveAll(filepath.Dir(tool))
 	}
+	s := ygNewServer(nil, tool, false)
 	var slots []string
 	var err error
 	crashed := vCatch(func() { slots, err = s.ListSlots() })
@@ -114,7 +116,7 @@ func H13_listslots() {
 
 func H13_remote() {
 	m13Out = []byte("Slot 9a:\n")
-	s := &server{pivtoolpath: "/model/yubico-piv-tool", remote: true}
+	s := ygNewServer(nil, "/model/yubico-piv-tool", true)
 	op := vChoose(3, "op")
 	var err error
 	switch op {
